@@ -69,6 +69,10 @@ type vStep struct {
 	Call vCall   `json:"call"`
 	V    vSide   `json:"v"`
 	C    []vSide `json:"c"`
+	// Skip is set by the driver on a step whose whole call prefix was already checked
+	// in an earlier history of the same file: the call is executed, the checks are not
+	// repeated.
+	Skip bool `json:"skip"`
 	// init record only
 	Def     map[string]vDef `json:"def"`
 	Known   []string        `json:"known"`
@@ -200,7 +204,6 @@ type vRun struct {
 	lists [][]string
 	rnd   *rand.Rand
 	res   *vResult
-	fast  bool
 }
 
 func (r *vRun) obj(o string) ontology.ID {
@@ -240,7 +243,11 @@ func ad(b bool) string {
 // checkSide compares every request (subject x action x object list) and the policy set
 // of every subject on one view (tx != nil: the open transaction; nil: committed state)
 // with the specification.
-func (r *vRun) checkSide(step int, call vCall, side *vSide, tx gorp.Tx) {
+//
+// full = false (committed side after a call that is not a commit): only the empty list
+// and the one-element lists are asked; a pending write leaking into the committed view
+// shows on those.
+func (r *vRun) checkSide(step int, call vCall, side *vSide, tx gorp.Tx, full bool) {
 	view := "committed"
 	if tx != nil {
 		view = "tx"
@@ -263,7 +270,7 @@ func (r *vRun) checkSide(step int, call vCall, side *vSide, tx gorp.Tx) {
 				pc, xc = side.P[s][a], side.X[s][a]
 			}
 			for _, l := range r.lists {
-				if r.fast && len(l) == 2 && r.rnd.Intn(4) != 0 {
+				if !full && len(l) == 2 {
 					continue
 				}
 				objs := make([]ontology.ID, len(l))
@@ -392,14 +399,14 @@ func firstLine(s string) string {
 }
 
 // vReplay steps the real service through one history.
-func vReplay(ctx context.Context, e *vEnv, idx int, hist []vStep, seed int64, fast bool) (res vResult) {
+func vReplay(ctx context.Context, e *vEnv, idx int, hist []vStep, seed int64, fresh bool) (res vResult) {
 	res = vResult{I: idx, R: "ok"}
 	if len(hist) == 0 || hist[0].Call.A != "init" {
 		res.R, res.Note = "inconclusive", "history does not start with init"
 		return
 	}
 	init := &hist[0]
-	r := &vRun{ctx: ctx, e: e, init: init, res: &res, fast: fast,
+	r := &vRun{ctx: ctx, e: e, init: init, res: &res,
 		m:    int((seed + int64(idx)) % int64(len(vMaps))),
 		rnd:  rand.New(rand.NewSource(seed*1000003 + int64(idx))),
 		subj: map[string]ontology.ID{}, roles: map[string]role.Key{}, pols: map[string]policy.Key{}, polOf: map[policy.Key]string{}}
@@ -500,11 +507,14 @@ func vReplay(ctx context.Context, e *vEnv, idx int, hist []vStep, seed int64, fa
 		if len(st.C) > 0 {
 			lastCom = &st.C[0]
 		}
+		if st.Skip && !(i == 0 && fresh) && res.Drift == nil {
+			continue
+		}
 		if res.Drift == nil {
-			r.checkSide(i, c, &st.V, tx)
+			r.checkSide(i, c, &st.V, tx, true)
 		}
 		if res.Drift == nil && res.Bad == nil {
-			r.checkSide(i, c, lastCom, nil)
+			r.checkSide(i, c, lastCom, nil, c.A == "commit" || c.A == "init")
 		}
 		if res.Bad != nil || res.Drift != nil {
 			break
@@ -527,7 +537,6 @@ func TestVerifRBACReplay(t *testing.T) {
 		t.Skip("VERIF_IN/VERIF_OUT not set")
 	}
 	seed, _ := strconv.ParseInt(os.Getenv("VERIF_SEED"), 10, 64)
-	fast := os.Getenv("VERIF_FAST") == "1"
 	idx0, _ := strconv.Atoi(os.Getenv("VERIF_IDX0"))
 	nw, _ := strconv.Atoi(os.Getenv("VERIF_WORKERS"))
 	if nw <= 0 {
@@ -585,7 +594,7 @@ func TestVerifRBACReplay(t *testing.T) {
 							e = nil
 						}
 					}()
-					return vReplay(ctx, e, j.i, hist, seed, fast)
+					return vReplay(ctx, e, j.i, hist, seed, n == 1)
 				}()
 				results <- res
 			}
